@@ -57,6 +57,7 @@ type Project struct {
 
 	always bool
 	dryrun bool
+	run    int // the number of the current run
 
 	flags   map[string]*Flag
 	modules map[string]*module
@@ -171,6 +172,7 @@ func (opts *RunOptions) apply(proj *Project) {
 
 func (proj *Project) Run(label *label.Label, options *RunOptions) error {
 	options.apply(proj)
+	proj.run++
 
 	err := runner.Run(proj, label.String())
 	proj.events.RunDone(err)
